@@ -1700,13 +1700,25 @@ func (d *Dot11InformationElement) String() string {
 
 func (m Dot11InformationElement) SerializeTo(b gopacket.SerializeBuffer, opts gopacket.SerializeOptions) error {
 	length := len(m.Info) + len(m.OUI)
+	start := 2
+	if m.ID == 255 {
+		// extension elements carry the extension ID in front of the information, as DecodeFromBytes reads it
+		length++
+		start++
+	}
+	if length > 255 {
+		return fmt.Errorf("Dot11InformationElement of %d octets exceeds the 8 bit length field", length)
+	}
 	if buf, err := b.PrependBytes(2 + length); err != nil {
 		return err
 	} else {
 		buf[0] = uint8(m.ID)
 		buf[1] = uint8(length)
-		copy(buf[2:], m.OUI)
-		copy(buf[2+len(m.OUI):], m.Info)
+		if m.ID == 255 {
+			buf[2] = uint8(m.ExtensionID)
+		}
+		copy(buf[start:], m.OUI)
+		copy(buf[start+len(m.OUI):], m.Info)
 	}
 	return nil
 }
